@@ -571,6 +571,9 @@ func (w *Writer) WriteCompressed(refs []Reference, objects ...Object) error {
 	if err != nil {
 		return err
 	}
+	if len(objects) == 0 {
+		return nil
+	}
 
 	if !w.outputOptions.HasAny(optObjStm) {
 		// If object streams are disabled, write the objects directly.
